@@ -240,6 +240,9 @@ func runC07(c *Ctx) {
 	c.withOnlyKeys("R3", "R20", []string{"maybeSendPackets"}, func() { runC02(c) })
 	// R21 (shared with C01.R4): what a READ makes the server allocate and send is bounded by the configured maximum, not by the request
 	c.withOnly("R4", "R21", func() { runC01Server(c) })
+	// R23 (= C08.O13): a read from the stream that failed is the last one (a time-out in the middle of a frame must
+	// not be followed by a read that takes the rest of the payload for frame headers)
+	checkFailedReadIsFinal(c, "R23", 8)
 	checkShortInputIsReported(c, "R22")
 	// R13 (shared with C02.R0): a well-formed request of every type makePacket can build lands in a case of the os
 	// server's dispatcher that answers it; the default arm returns an error, which ends the command worker without a
